@@ -21,7 +21,8 @@ for d in /verif/seeded/$PAT/; do
   # on the current HEAD of /repo when the patch still applies there (so that defects repaired since
   # the change was written do not do the catching), otherwise on the commit it was written against
   git -C /tmp/seedrepo checkout -q -- . ; git -C /tmp/seedrepo checkout -q --detach "$HEADC"
-  if git -C /tmp/seedrepo apply --check "$d/patch.diff" 2>/dev/null; then on=HEAD; else on=$base; git -C /tmp/seedrepo checkout -q --detach "$base" || { echo "$name: cannot check out $base"; continue; }; fi
+  onbase=$(python3 -c "import json,sys; print(json.load(open(sys.argv[1])).get('rerun_on_base', False))" "$d/meta.json")
+  if [ "$onbase" != "True" ] && git -C /tmp/seedrepo apply --check "$d/patch.diff" 2>/dev/null; then on=HEAD; else on=$base; git -C /tmp/seedrepo checkout -q --detach "$base" || { echo "$name: cannot check out $base"; continue; }; fi
   git -C /tmp/seedrepo apply "$d/patch.diff" || { echo "$name: patch does not apply on $on"; continue; }
   ( cd /tmp/seedharness && cargo build --release --offline >/tmp/seedroot/build.log 2>&1 ) || { echo "$name: harness does not build"; continue; }
   out=$(RMLV_ROOT=/tmp/seedroot /tmp/seedharness/target/release/rmlv run $P --tier quick --seed 13 2>&1); code=$?
